@@ -8,6 +8,30 @@ var commonAssumptions = []string{
 }
 
 func init() {
+	register("C14", &propDef{
+		Run: runC14,
+		Info: propInfo{
+			Explanation: "Delay rules on SSA/CFG: every peek() result is nil-tested or comma-ok asserted before a use that panics on an empty queue (belief contradiction across the five call sites), and fields of a comma-ok asserted head are used only on the ok edge; the delay filter pops and forwards only on the due edge (deadline before now), forwards exactly the wrapped chunk, once per pop; the due time is time.Now()+configured delay computed at arrival, queued before the notification; only timedChunk values enter the filter queue; every path from a timer tick or a timer.Stop() to the next wait re-arms the timer (failed assertions of a non-nil head are infeasible by the previous rule); the timer channel is drained only when Stop() failed; the router pops only chunks whose timestamp is not after now-minDelay (exact linear form of the cut-off) and stamps chunks before enqueueing; the queue is a FIFO (append at end, read/remove index 0). Wall-clock lower bounds and jitter values are not decided.",
+			RuleText:    "one obligation per rule; sites are peek/pop/forward/timer operations and stores; non-trivial = matched at least one site",
+			Assumptions: commonAssumptions,
+		},
+	})
+	register("C15", &propDef{
+		Run: runC15,
+		Info: propInfo{
+			Explanation: "Token-bucket rules on SSA/CFG/call graph: every store to the token count is min(float64(maxBurst), .) or subtracts the forwarded size, and the refill executes the capped store on every path under the filter mutex; there is exactly one forwarding site, in the drain loop, guarded by tokens >= size of the peeked head, which is the forwarded value; per loop iteration exactly one pop and one decrement by that size are paired with the forward, and nothing is popped without being forwarded; the queue is popped only by the drain loop and fed only by run with the arriving chunk on every path (discard only via push refusing); single consumer goroutine started once; FIFO queue shape; peek results nil-tested. The byte bound over every interval (floating-point/time arithmetic) is not decided.",
+			RuleText:    "one obligation per rule; sites are stores, queue operations, forwards and call-graph edges; non-trivial = matched at least one site",
+			Assumptions: commonAssumptions,
+		},
+	})
+	register("C16", &propDef{
+		Run: runC16,
+		Info: propInfo{
+			Explanation: "Loss-filter rules: exactly one uniform draw rand.Intn(100) per datagram; the drop decision, extracted as a decision structure over linear atoms and compared by a complete truth table, is 'drop iff draw < chance' on the configured int chance stored unchanged by the constructor (so chance <= 0 never drops and chance >= 100 always does - exact end points); at most one forward, of the very chunk received, to the wrapped NIC; no other effect. The dropped fraction for 0 < chance < 100 is statistical and not decided.",
+			RuleText:    "one obligation per rule; sites are the draw, branch atoms, stores and forwards; non-trivial = matched at least one site",
+			Assumptions: append([]string{"math/rand.Intn(n) is uniform over [0,n)"}, commonAssumptions...),
+		},
+	})
 	register("C10", &propDef{
 		Run: runC10,
 		Info: propInfo{
